@@ -440,4 +440,96 @@ theorem nodeSet_eq_ins (mk : Nat) (es : List (Key × β)) (k : Key) (v : β) (lo
 
 end entries
 
+/-! ## leaves: the association-list semantics -/
+
+/-- value stored under `k`, 0 if there is none (a stored 0 is a placeholder: also "absent") -/
+def lookupD : List (Key × Val) → Key → Val
+  | [], _ => 0#64
+  | e :: rest, k => if e.1 = k then e.2 else lookupD rest k
+
+theorem lookupD_append_of_not_mem {l : List (Key × Val)} {k : Key} (h : ∀ e ∈ l, e.1 ≠ k) (r : List (Key × Val)) :
+    lookupD (l ++ r) k = lookupD r k := by
+  induction l with
+  | nil => rfl
+  | cons x rest ih =>
+    simp only [List.cons_append, lookupD, h x (List.mem_cons_self ..), if_false]
+    exact ih (fun e he => h e (List.mem_cons_of_mem _ he))
+
+theorem lookupD_of_not_mem {l : List (Key × Val)} {k : Key} (h : ∀ e ∈ l, e.1 ≠ k) : lookupD l k = 0#64 := by
+  have := lookupD_append_of_not_mem h []
+  simpa [lookupD] using this
+
+theorem lookupD_append_of_mem {l : List (Key × Val)} {k : Key} (h : ∃ e ∈ l, e.1 = k) (r : List (Key × Val)) :
+    lookupD (l ++ r) k = lookupD l k := by
+  induction l with
+  | nil => obtain ⟨e, he, _⟩ := h; cases he
+  | cons x rest ih =>
+    simp only [List.cons_append, lookupD]
+    by_cases hx : x.1 = k
+    · simp [hx]
+    · simp only [hx, if_false]
+      apply ih
+      obtain ⟨e, he, hk⟩ := h
+      rcases List.mem_cons.mp he with rfl | he
+      · exact absurd hk hx
+      · exact ⟨e, he, hk⟩
+
+/-- the map after `ins`: `k ↦ v`, everything else unchanged -/
+theorem lookupD_ins (es : List (Key × Val)) (k : Key) (v : Val) (k' : Key) :
+    lookupD (ins es k v) k' = if k' = k then v else lookupD es k' := by
+  induction es with
+  | nil =>
+    by_cases h : k' = k
+    · subst h; simp [ins, lookupD]
+    · have : ¬ k = k' := fun e => h e.symm
+      simp [ins, lookupD, h, this]
+  | cons e rest ih =>
+    simp only [ins]
+    by_cases h1 : k < e.1
+    · simp only [h1, if_true, lookupD]
+      by_cases h : k' = k
+      · subst h; simp
+      · have : ¬ k = k' := fun e => h e.symm
+        simp [h, this]
+    · by_cases h2 : k = e.1
+      · subst h2
+        simp only [BitVec.lt_irrefl, if_false, if_true]
+        by_cases h : k' = e.1
+        · simp [h, lookupD]
+        · have : ¬ e.1 = k' := fun x => h x.symm
+          simp [h, this, lookupD]
+      · simp only [h1, h2, if_false, lookupD, ih]
+        by_cases h : k' = k
+        · subst h
+          have : ¬ e.1 = k' := fun x => h2 x.symm
+          simp [this]
+        · simp [h]
+
+/-- `node.get` on a sorted leaf is the association-list lookup. -/
+theorem leafGet_eq_lookupD (es : List (Key × Val)) (k : Key) (lo : Key) (hs : SortedFrom lo es)
+    (hlen : es.length < 2 ^ 64) : leafGet es k = lookupD es k := by
+  obtain ⟨l, r, he, hl, h1, h2⟩ := search_spec es k
+  subst he
+  have hl' : ∀ e ∈ l, e.1 ≠ k := fun e he => by have := h1 e he; bv_omega
+  unfold leafGet
+  rw [← hl, lookupD_append_of_not_mem hl']
+  cases r with
+  | nil =>
+    have : getMiss (w l.length) (w (l ++ ([] : List (Key × Val))).length) = true := by
+      unfold getMiss; simp
+    simp [this, lookupD]
+  | cons e r' =>
+    have hL : (l ++ e :: r').length = l.length + (r'.length + 1) := by simp
+    have : getMiss (w l.length) (w (l ++ e :: r').length) = false := by
+      unfold getMiss; rw [w_beq (by omega) (by omega)]; simp
+    have hget : (l ++ e :: r')[l.length]? = some e := by simp
+    simp only [this, hget, lookupD]
+    have hke : k ≤ e.1 := h2 e r' rfl
+    have hsr := (sortedFrom_append.mp hs).2
+    by_cases heq : e.1 = k
+    · simp [getHit, heq]
+    · have : lookupD r' k = 0#64 := lookupD_of_not_mem (fun x hx => by
+        have := hsr.2.all_gt x hx; bv_omega)
+      simp [getHit, heq, this]
+
 end RV.Tree
